@@ -10,6 +10,7 @@ mod asmutil;
 mod objutil;
 mod progs;
 mod props;
+mod stages;
 
 use json::Json;
 use monitor::*;
@@ -52,7 +53,7 @@ fn shard(a: &[String]) -> i32 {
     if a.len() >= 8 {
         ctx.replay_only = Some((a[6].parse().unwrap_or(0), a[7].parse().unwrap_or(0)));
     } else {
-        ctx.open_journal(&out.with_extension("journal"));
+        if ctx.stage != "miri" { ctx.open_journal(&out.with_extension("journal")); }
     }
     (prop.run)(&mut ctx);
     let tmp = out.with_extension("tmp");
@@ -150,6 +151,17 @@ fn check(a: &[String]) -> i32 {
         }
     }
 
+    // supplementary sanitizer stages (thorough tier, or VERIF_STAGES=1)
+    let mut stage_json = vec![];
+    if tier == Tier::Thorough || std::env::var("VERIF_STAGES").is_ok_and(|v| v == "1") {
+        for spec in (prop.stages)() {
+            let r = stages::run_stage(&spec, prop.id, seed, &root);
+            println!("stage {} ({}) for {}: {} ({} evaluations, {:.0}s) {}", r.name, spec.phases, prop.id, r.status, r.evaluations, r.wall_s, r.detail);
+            stage_json.push(Json::obj().set("stage", r.name.as_str()).set("phases", spec.phases).set("status", r.status.as_str()).set("evaluations", r.evaluations).set("wall_s", r.wall_s).set("detail", r.detail.as_str()).set("reports", r.reports.len()));
+            for v in r.reports { let e = merged.violations.entry(v.sig.clone()).or_insert(Violation { count: 0, ..v.clone() }); e.count += v.count.max(1); }
+        }
+    }
+
     // known findings
     let known = load_known_findings(&root);
     let mut known_lines = vec![];
@@ -181,7 +193,7 @@ fn check(a: &[String]) -> i32 {
 
     let verdict = if !new_viol.is_empty() { "violated" } else if !merged.inconclusive.is_empty() { "inconclusive" } else { "held" };
     let wall = t0.elapsed().as_secs_f64();
-    write_evidence(&root, &prop, tier, seed, &merged, wall, verdict, &known_lines, new_viol.len(), bins.len());
+    write_evidence(&root, &prop, tier, seed, &merged, wall, verdict, &known_lines, new_viol.len(), bins.len(), stage_json);
 
     for l in &known_lines { println!("{l}"); }
     for l in &viol_lines { println!("{l}"); }
@@ -193,7 +205,7 @@ fn check(a: &[String]) -> i32 {
 
 #[allow(clippy::too_many_arguments)]
 fn write_evidence(root: &std::path::Path, prop: &props::Prop, tier: Tier, seed: u64, m: &Merged, wall: f64,
-                  verdict: &str, known_lines: &[String], new_violations: usize, profiles: usize) {
+                  verdict: &str, known_lines: &[String], new_violations: usize, profiles: usize, stage_json: Vec<Json>) {
     let mut counts = Json::obj();
     for (k, v) in &m.counts { counts.put(k, *v); }
     let mut cov = Json::obj()
@@ -205,6 +217,7 @@ fn write_evidence(root: &std::path::Path, prop: &props::Prop, tier: Tier, seed: 
         .set("profiles_run", profiles)
         .set("shards_merged", m.shards_ok);
     if (prop.exhaustive)(tier) { cov.put("exhaustive", true); }
+    if !stage_json.is_empty() { cov.put("sanitizer_stages", Json::Arr(stage_json)); }
     if !m.notes.is_empty() { cov.put("notes", Json::Arr(m.notes.iter().map(|s| Json::from(s.as_str())).collect())); }
     let mut sigs = vec![];
     for v in m.violations.values() { sigs.push(Json::obj().set("signature", &v.sig).set("count", v.count).set("what", &v.what)); }
